@@ -351,7 +351,7 @@ class BuiltinMixin:
             # the sorted list of a key set enumerates it without repetition: position function in both directions
             items = st.hread("$litems", V.r(res.z))
             dom, n = keyview["dom"], keyview["n"]
-            spos = z3.Function(f"sortedpos!{id(items) % 1000000}", V, IntS)
+            spos = z3.Function(f"sortedpos!{items}", V, IntS)   # `items` is a fresh, uniquely named constant
             x, j = fresh("x", V), fresh("j", IntS)
             st.assume(z3.ForAll([x], z3.Implies(z3.Select(dom, x), z3.And(0 <= spos(x), spos(x) < n, z3.Select(items, spos(x)) == x))))
             st.assume(z3.ForAll([j], z3.Implies(z3.And(0 <= j, j < n), z3.And(z3.Select(dom, z3.Select(items, j)), spos(z3.Select(items, j)) == j))))
